@@ -167,7 +167,7 @@ class ProcessExtensions(Contract):
 
 
 # ------------------------------------------------------------------------------- on_disconnect
-@contract('lomond.websocket.WebSocket.on_disconnect', serves=['C13', 'C08', 'C10'])
+@contract('lomond.websocket.WebSocket.on_disconnect', serves=['C13', 'C08', 'C10', 'C12'])
 class OnDisconnect(Contract):
     """the session's socket is released (closed under the lock, session._sock cleared) and the
     websocket is marked closed, not closing; never raises"""
